@@ -171,7 +171,7 @@ impl Check for C10 {
         8
     }
     fn shard_timeout_s(&self, tier: Tier) -> u64 {
-        tier.pick(900, 6 * 3600)
+        tier.pick(1800, 6 * 3600)
     }
     fn run_case(&self, sh: &mut Shard, _case: &CaseId) {
         let mut rng = Rng::new(sh.case_seed());
